@@ -339,8 +339,14 @@ def run(case):
                     continue
                 harness.communicator.delivery_queue.append({'delay': case.get('delay', 0)})
                 harness.communicator.delivery_queue.append({'delay': case.get('delay', 0)})
-                reply = harness.loop.create_task(harness.controller.execute_process(
-                    harness.classes[prog_i], loader=harness.loader, nowait=nowait))
+                if case.get('sender') == 'thread':
+                    # the thread controller chains the create and the continue task with done callbacks instead of awaits
+                    result.counters['sender:thread_execute'] += 1
+                    reply = harness.thread_controller.execute_process(harness.classes[prog_i], loader=harness.loader,
+                                                                      nowait=nowait)
+                else:
+                    reply = harness.loop.create_task(harness.controller.execute_process(
+                        harness.classes[prog_i], loader=harness.loader, nowait=nowait))
                 expect_reject = harness.persister is None
             else:
                 raise ValueError(name)
